@@ -1,6 +1,6 @@
 NOTES = ("Static analysis only (go/packages + go/ssa, x/tools v0.29.0): nothing in /repo is built or executed by the checks. "
          "Two genuine defects were repaired by fix: commits in /repo (see known_findings.txt and DESIGN.md section 6). "
-         "seeded/ holds 65 independently produced and confirmed seeded defects plus the two fix reverts; DESIGN.md section 10 records which check catches which.")
+         "seeded/ holds 126 independently produced and confirmed seeded defects plus the two fix reverts (seeded/CATCH.md: which check reports which); neutral/ holds 48 behaviour-preserving refactors that must stay silent; DESIGN.md section 9 records both and the false alarms corrected.")
 ALL = ["C%02d" % i for i in range(1, 21)]
 ENGINES = [
  {"name": "edcheck", "path": "/verif/cmd/edcheck", "serves_properties": ALL,
@@ -18,17 +18,17 @@ def fill(chk):
         TB + " Not decided: byte-exactness of the arithmetic primitives.",
         "def-use term reconstruction + hash-transcript typestate + guard truth tables + effects analysis on go/ssa", "DESIGN.md section 5 C02")
     chk("C03", "other",
-        "Decides sibling agreement between signer and all verifiers (same challenge transcript and dom2 rule, single and batch), that S is the Contract of the reducing scalar Add without post-processing, that no verifier (single, batch fast path, fallback, remainder) has a rejection reason outside the documented list, and that the one magnitude test is exactly S<L.",
+        'Decides sibling agreement between signer and all verifiers (same challenge transcript and dom2 rule, single and batch), that S is the Contract of the reducing scalar Add without post-processing, that no verifier (single, batch fast path, fallback, remainder) has a rejection reason outside the documented list, that the one magnitude test is exactly S<L, and that on every build configuration of the tier signer and verifier use the expected member of each sibling-file group, the same constants and the same (independently recomputed) tables.',
         TB + " Not decided: honest R and A are never small order (group theory) and the arithmetic.",
-        "term/transcript comparison across sibling functions + guard truth tables + batch region analysis", "DESIGN.md section 5 C03")
+        'term/transcript comparison across sibling functions + guard truth tables + batch region analysis + configuration matrix and table audit', 'DESIGN.md section 5 C03')
     chk("C04", "proof",
         "Exhaustive abstract evaluation of the scalar-admissibility predicate over a finite predicate abstraction of all 2^256 scalars (concrete top byte x order of each 64-bit word relative to L): every class evaluates to a definite verdict and it equals S<L; the order constant as written equals L; every verifier mode (single default/ZIP-215, batch fast path, fallback, remainder) gates on exactly this predicate and the S bytes flow nowhere else but the scalar expansion.",
         TB + " Also trusted: soundness of the partition (byte 31 is the top byte of little-endian word 3), math/big.",
         "finite predicate abstraction evaluated exhaustively on go/ssa + constant audit + guard truth tables", "DESIGN.md section 5 C04, section 4 F")
     chk("C05", "other",
-        "Decides that the ZIP-215 flag influences only the two small-order rejections (every read of the option field is enumerated), identically in the single verifier and the batch fast path and passed unchanged through the plumbing and the fallback; with the flag set the accepted set is the ZIP-215 list and the truth table dominates the default one pointwise.",
+        "Decides that the ZIP-215 flag influences only the two small-order rejections (every read of the option field is enumerated), identically in the single verifier and the batch fast path and passed unchanged through the plumbing and the fallback; with the flag set the accepted set is the ZIP-215 list and the truth table dominates the default one pointwise; the decoder has exactly one rejection; the scalar layer (S<L test, expansion, both recodings' digit extraction) is bit-exact up to bit 255 on both layouts, which matters here because S ranges over all of [0,L).",
         TB + " Not decided: the primitives.",
-        "guard truth tables with the flag as an atom + referrer enumeration + batch region analysis", "DESIGN.md section 5 C05")
+        'guard truth tables with the flag as an atom + referrer enumeration + batch region analysis + bit-provenance abstract interpretation', 'DESIGN.md section 5 C05')
     chk("C06", "other",
         "Decides the structural half of batch = single: entry-index discipline i+offset at every access in every loop (including chunks with offset>0 that tests never run), slot map, phase order and dominance by the fast-path flag, fail-then-fallback discipline, per-entry guard agreement with the single verifier, fresh randomisers per chunk, clean hash object at every iteration boundary, fallback/remainder delegating to the single verifier with one and the same index, and the documented returns.",
         TB + " Not decided: the 2^-120 probabilistic soundness and the multi-scalar arithmetic.",
@@ -38,9 +38,9 @@ def fill(chk):
         TB + " Not decided: cross-acceptance impossibility itself (needs collision resistance of SHA-512).",
         "interval-partition evaluation of guards + hash-transcript typestate on go/ssa", "DESIGN.md section 5 C07")
     chk("C08", "other",
-        "Decides the necessary conditions a backend-confined divergence would have to break, on every configuration of the matrix: expected sibling-file selection, equal exported API, layout constants, constants and both tables equal to independently recomputed values on both layouts, assembly selector lint, finite evaluation of the table selector (32x17 cases) and of the conditional swap, unrolled-stage uniformity, bit-exact (de)serialisers and digit extraction, and the magnitude fixpoint (no overflow / lost carry) on both limb layouts.",
+        'Decides the necessary conditions a backend-confined divergence would have to break, on every configuration of the matrix: expected sibling-file selection, equal exported API, layout constants, constants and both tables equal to independently recomputed values on both layouts, assembly selector lint, finite evaluation of the table selector (32x17 cases) and of the conditional swap, unrolled-stage uniformity, bit-exact (de)serialisers, the three Bos-Coster predicates decided on all inputs, magnitude analysis of both arithmetic packages, and exact polynomial identities for every leaf field operation plus the exponent chains, on both limb layouts.',
         TB + " Not decided: observational equality of outputs on all inputs (numeric).",
-        "configuration-matrix type-checking + constant audits + abstract interpretation + sibling-agreement rules", "DESIGN.md section 5 C08")
+        'configuration-matrix type-checking + constant audits + abstract interpretation (intervals, bit provenance, polynomial value numbers) + sibling-agreement rules', 'DESIGN.md section 5 C08')
     chk("C09", "other",
         "Decides the shape of the small-order predicate: undecodable => small, exactly three doublings, identity test on the contracted X, Y, Z (X=0 and Y=Z), used at exactly the documented call sites and always gated by !zip215 (single and batch).",
         TB + " Not decided: the doubling formula's algebra and the group theory of the torsion subgroup.",
@@ -58,33 +58,33 @@ def fill(chk):
         TB + " Not decided: commutation with key generation (numeric).",
         "def-use term reconstruction + hash-transcript typestate", "DESIGN.md section 5 C12")
     chk("C13", "other",
-        "Decides that the documented panics are matched by guard in the decision structures of Sign / Verify / VerifyWithOptions / NewKeyFromSeed, that the batch verifier checks every entry's lengths before use and delegates to the no-panic helper, that X25519 returns errors for wrong lengths before touching the data, and (effects analysis, every configuration) that no exported function writes memory reachable from a caller-supplied slice and results are fresh.",
-        TB + " Not decided: index sites whose safety rests on data invariants of the arithmetic (listed as assumptions).",
-        "guard truth tables + provenance/effects analysis with summaries", "DESIGN.md section 5 C13")
+        "Decides that the documented panics are matched by guard in the decision structures of Sign / Verify / VerifyWithOptions / NewKeyFromSeed, that the batch verifier checks every entry's lengths before use and delegates to the no-panic helper, that X25519 returns errors for wrong lengths before touching the data, that (effects analysis, every configuration) no exported function writes memory reachable from a caller-supplied slice and results are fresh, that every non-constant index site reachable from the API is bounded by its loop counter or belongs to a role family listed with its data invariant, that slice-bound obligations collected on all paths are met by dominating length facts, and that the leading-limb scan of the multi-scalar routine is reached only for a non-zero scalar.",
+        TB + " Not decided: index sites whose safety rests on data invariants of the arithmetic (printed as assumptions in the evidence).",
+        'guard truth tables + provenance/effects analysis with summaries + index-site enumeration + dominator queries', 'DESIGN.md section 5 C13')
     chk("C14", "other",
         "Decides that GenerateKey passes the reader to exactly one io.ReadFull on a fresh 32-byte buffer with error => (nil,nil,err), that the private key is seed||public, that Public/Seed return fresh copies of the right halves and that Equal is same dynamic type plus whole-slice equality.",
         TB,
         "path enumeration + def-use term reconstruction + provenance analysis", "DESIGN.md section 5 C14")
     chk("C15", "proof",
-        "On every configuration: no function outside package initialisers writes memory reachable from a package-level variable (one dead test switch frozen with its reason), exported functions write only locals and declared out-parameters, no goroutine/channel/defer/sync construct and no unmodelled external exists. Hence concurrent calls on read-only shared inputs have no conflicting accesses and results depend on arguments only.",
+        "On every configuration: no function outside package initialisers writes memory reachable from a package-level variable (one dead test switch frozen with its reason), exported functions write only locals and declared out-parameters, an entropy reader is always the caller's own or crypto/rand.Reader (never package-level state), no goroutine/channel/defer/sync construct and no unmodelled external exists. Hence concurrent calls on read-only shared inputs have no conflicting accesses and every result is a function of the arguments (plus the caller's own reader).",
         "Trusted: Go memory model; externals table (sha512.New returns a fresh object, crypto/rand.Reader is concurrency-safe); the flow-insensitive provenance analysis is an over-approximation and unknown provenance fails closed.",
-        "mod/ref effects analysis with bottom-up summaries over go/ssa", "DESIGN.md section 5 C15")
+        'mod/ref effects analysis with bottom-up summaries over go/ssa', 'DESIGN.md section 5 C15')
     chk("C16", "other",
-        "Decides that both precomputed tables are exactly the documented multiples of B (recomputed independently, both layouts), the table selector on its complete 32x17 domain (reference and assembly variants), uniformity of the unrolled conditional-move, exact digit extraction of both recodings, and that no scratch table is shared between calls.",
-        TB + " Not decided: that the schedule composed with the group law yields [s]B and [s1]P+[s2]B for all scalars.",
-        "constant-table audit with independent big-integer curve arithmetic + finite abstract evaluation + bit provenance", "DESIGN.md section 5 C16")
+        'Decides that both precomputed tables are exactly the documented multiples of B (recomputed independently, both layouts), the table selector on its complete 32x17 domain (reference and assembly variants), uniformity of the unrolled conditional-move, exact digit extraction of both recodings, that no scratch table is shared between calls, and that the field operations used around the loops are exact modulo p and free of overflow under every magnitude the group law produces.',
+        TB + " Not decided: the digit-to-table schedule of the two loops (no rule built) and that it composed with the group law yields [s]B and [s1]P+[s2]B for all scalars.",
+        'constant-table audit with independent big-integer curve arithmetic + finite abstract evaluation + bit provenance + polynomial value numbers', 'DESIGN.md section 5 C16')
     chk("C17", "other",
-        "Decides the set-up of the batch equation (slot/term correspondence, one randomiser in its three places, base point in slot 0, count 2n+1, summation before slot reuse, per-chunk re-initialisation), that the fallback is entered iff the fast-path flag is false, that the heap is seeded with an odd number of scalars covering all full-size ones for every chunk size, and the uniformity of the variable-time subtraction chain.",
+        "Decides the set-up of the batch equation (slot/term correspondence over affine iteration spaces, one randomiser in its three places, base point in slot 0, count 2n+1, summation before slot reuse, per-chunk re-initialisation), that the fallback is entered iff the fast-path flag is false, that the heap is seeded with an odd number of scalars covering all full-size ones for every chunk size, that the three predicates steering the Bos-Coster loop (zero, one, at most 128 bits) are exact on all inputs on both layouts, that the final ladder's limb scan is guarded by the zero test, and the uniformity of the variable-time compare/subtract chains.",
         TB + " Not decided: exactness of the Bos-Coster heap arithmetic.",
-        "per-iteration region path enumeration with affine index normal forms + finite abstract evaluation", "DESIGN.md section 5 C17")
+        'per-iteration region path enumeration with affine index normal forms + finite abstract evaluation', 'DESIGN.md section 5 C17')
     chk("C18", "other",
-        "Decides the 'no lost carry or overflow' clause for all operands within the caller-reachable magnitudes, which the analysis computes itself as a fixpoint of the group law over per-limb intervals on both limb layouts; bias constants are 2p/4p and dominate reduced limbs; carry chains are uniform and shift by the limb width; Expand ignores bit 255; SwapConditional is exactly a swap or a no-op on all limb bits.",
-        TB + " Not decided: value exactness of Mul/Square and Contract's canonicalisation argument (relational).",
-        "interval x bit-provenance abstract interpretation with value numbering + sibling-agreement rules", "DESIGN.md section 5 C18")
+        'Decides value exactness of every leaf field operation on both limb layouts: Add/Sub/Neg and their AfterBasic/Reduce forms, Mul, Square, SquareTimes (one step, with induction over its own magnitude class) and Copy satisfy the polynomial identity sum(out_i*2^w_i) = spec(a,b) modulo 2^255-19, coefficient by coefficient, for every operand-magnitude class the group law produces (dropped high parts are tracked as carry symbols, so a lost or masked-off carry leaves a residue); Recip and PowTwo252m3 are addition chains ending at p-2 and 2^252-3; no overflow, borrow, lossy narrowing or lost carry under those magnitudes; bias constants are 2p/4p; carry chains are uniform; Expand ignores bit 255; SwapConditional is exactly a swap or a no-op.',
+        TB + " Not decided: Contract's canonicalisation argument (that its output is the unique representative below p for every input representation) is a relational range argument; one seeded defect of that kind (seeded/C18-m1) is not reported by any check.",
+        'abstract interpretation over go/ssa: intervals x bit provenance x value numbers x exact polynomial value numbers with carry symbols; coefficient-wise identity check; sibling-agreement rules', 'DESIGN.md section 5 C18, section 1.1')
     chk("C19", "other",
-        "Decides m = L and mu = floor(2^512/L) on both layouts, uniformity and per-limb constants of the conditional-subtraction and Barrett borrow chains, that Expand skips the reduction only below 32 bytes, bit-exactness of ExpandRaw/Expand/Contract and of the digit extraction of both recodings, absence of overflow / lost carries / dropped non-zero values in Add, Mul, barrettReduce.",
-        TB + " Not decided: that Barrett's estimate plus two conditional subtractions yields the canonical residue; that the signed recodings represent their input.",
-        "interval x bit-provenance abstract interpretation + sibling-agreement rules + constant audit", "DESIGN.md section 5 C19")
+        'Decides m = L and mu = floor(2^512/L) on both layouts, uniformity and per-limb constants of the conditional-subtraction and Barrett borrow chains, that Expand skips the reduction only below 32 bytes and hands Barrett exactly r1 = x mod 2^264 and q1 = x >> 248, bit-exactness of ExpandRaw/Expand/Contract and of the digit extraction of both recodings, absence of overflow / lost carries / dropped non-zero values in Add, Mul, barrettReduce, and the three variable-time predicates (zero, one, at most 128 bits) on all inputs.',
+        TB + " Not decided: that Barrett's estimate plus two conditional subtractions yields the canonical residue (Mul(x,y) = xy mod L is not decided); that the signed recodings represent their input.",
+        'interval x bit-provenance abstract interpretation + sibling-agreement rules + constant audit', 'DESIGN.md section 5 C19')
     chk("C20", "proof",
         "For every entry point with its secret inputs marked, on every configuration of the tier, no tainted value reaches a branch condition, an index or slice bound, a variable-time callee, a non-constant division or a variable shift; the assembly selector is branch-free with constant addressing. Zero sinks => identical control-flow and address traces for executions that differ only in secrets (non-interference of the taint lattice).",
         "Trusted: externals marked constant-time (crypto/sha512, crypto/subtle, math/bits.Mul64/Add64, x/crypto curve25519), declassification of the one-bit result of subtle.ConstantTimeCompare, the Go compiler not introducing branches.",
